@@ -118,7 +118,12 @@ def pair_continuation(ctx, i, spec, n, rng, case):
         Tq = GEN.reexpress(Tq, d['u']) if d['u'] != dt['u'] else Tq
         if rng.random() < 0.3:
             Tq = GEN.reexpress(Tq, rng.choice(GEN.time_units_for(GEN.qsi(dt))))
-        sched.append({'op': 'run', 'dt': d, 'T': Tq})
+        op_ = {'op': 'run', 'dt': d, 'T': Tq}
+        if rng.random() < 0.4:
+            # the objects handed to run() were converted in place before (e.g. the first run's T re-expressed for the continuation)
+            op_['T_via'] = rng.choice(GEN.time_units_for(GEN.qsi(dt)))
+            op_['dt_via'] = rng.choice(GEN.time_units_for(GEN.qsi(dt)))
+        sched.append(op_)
     split['schedule'] = sched
     case = dict(case, pair='continuation')
     try:
